@@ -1,1 +1,12 @@
-/-! # C12 — property theorems (not built yet) -/
+import RsMatterVerif.Model.Counters
+/-! # C12 — durable counters never hand out the same value twice (theorems under construction) -/
+namespace C12
+open Counters
+
+/-- `advance_group_data_ctr` never yields 0 (the "uninitialised" marker). -/
+theorem gAdvance_ne_zero (v d : Nat) : gAdvance v d ≠ 0 := by
+  unfold gAdvance
+  simp only
+  split <;> omega
+
+end C12
